@@ -237,8 +237,12 @@ def cmd_check(a):
     }
     ev = {"property_id": prop.ID, "tier": tier, "seed": base, "level": "exploration", "coverage": cov,
           "assumptions": prop.ASSUMPTIONS, "wall_s": round(wall, 2), "violations": n_viol}
-    os.makedirs(os.path.join(VERIF, "evidence"), exist_ok=True)
-    with open(os.path.join(VERIF, "evidence", f"{prop.ID}.json"), "w") as f:
+    # evidence describes a run against /repo itself; runs against a scratch tree (sensitivity tests) write elsewhere
+    evdir = os.path.join(VERIF, "evidence")
+    if os.path.realpath(os.environ.get("VERIF_REPO", "/repo")) != "/repo":
+        evdir = "/dev/shm/verif-evidence-scratch"
+    os.makedirs(evdir, exist_ok=True)
+    with open(os.path.join(evdir, f"{prop.ID}.json"), "w") as f:
         json.dump(ev, f, indent=1, sort_keys=True)
 
     for l in lines:
